@@ -19,6 +19,10 @@ def cases(tier):
     for wa in (1, 2, 3, 5):
         for k in (0, 1, 2, 5, 13, 0xb5, 0xdead, 0xbad, 0xd):
             cs.append(('ops.operand_kinds', dict(wa=wa, k=k)))
+    # Const(-m, signed=True) in the unsigned operators (a raw bit pattern, zero-extended); runs of bare literals in concat
+    for wa in (1, 4, 6):
+        for m in (1, 3, 4, 5):
+            cs.append(('ops.signed_const_and_literals', dict(wa=wa, m=m)))
     # int operands of 49..65 bits around powers of two (width inference must be exact, no floating point)
     for k in ((1 << 49) - 1, (1 << 53) - 1, (1 << 53) + 1, (1 << 56) - 2, (1 << 63) - 1, 1 << 63, (1 << 64) - 1, 1 << 64):
         cs.append(('ops.operand_kinds', dict(wa=3, k=k)))
